@@ -130,8 +130,9 @@ class MinPathCoverCycles(walkmodel.AbstractWalkModelDiGraph):
         self.model = None
         
         self.solve_statistics = {}
-        self.optimization_options = optimization_options
-        self.solver_options = solver_options
+        # (None is accepted like an empty dictionary)
+        self.optimization_options = optimization_options if optimization_options is not None else {}
+        self.solver_options = solver_options if solver_options is not None else {}
         self.time_limit = self.solver_options.get("time_limit", sw.SolverWrapper.time_limit)
         self.solve_time_start = None
 
